@@ -67,3 +67,82 @@ theorem clientMsgsF_eq (bs : Bytes) : clientMsgsF bs = (clientFeed ⟨[], []⟩ 
   exact (gen bs ⟨[], []⟩ ⟨[], []⟩ ⟨rfl, rfl⟩).2
 
 end Dtail
+
+namespace Dtail
+
+def relM (n : Nat) (f : MSF) (s : MultiState) : Prop :=
+  f.rbufs.length = n ∧ (∀ j, j < n → ((f.rbufs[j]?).getD []).reverse = s.bufs j) ∧ f.rout.reverse = s.out
+
+theorem getD_set_nil (l : List Bytes) (i j : Nat) (x : Bytes) (hi : i < l.length) :
+    ((l.set i x)[j]?).getD [] = if j = i then x else (l[j]?).getD [] := by
+  simp only [List.getElem?_set]
+  by_cases h : i = j
+  · subst h; simp [hi]
+  · have h' : ¬ j = i := fun e => h e.symm
+    simp [h, h']
+
+theorem multiByteF_rel (n i : Nat) (hi : i < n) (f : MSF) (s : MultiState) (b : UInt8) (h : relM n f s) :
+    relM n (multiByteF i f b) (multiByte i s b) := by
+  obtain ⟨hl, hb, ho⟩ := h
+  have hil : i < f.rbufs.length := by omega
+  have hne : ¬ DELIM = NL := by decide
+  have hbi := hb i hi
+  unfold multiByteF multiByte relM
+  by_cases h1 : b = NL
+  · subst h1
+    simp only [if_true]
+    refine ⟨by simp [hl], ?_, ?_⟩
+    · intro j hj
+      rw [getD_set_nil _ _ _ _ hil]
+      by_cases hji : j = i
+      · simp [hji]
+      · simp only [hji, if_false]; exact hb j hj
+    · simp only [List.reverse_cons, ho]
+      rw [← hbi]
+  · by_cases h2 : b = DELIM
+    · subst h2
+      simp only [hne, if_false, if_true]
+      refine ⟨by simp [hl], ?_, ?_⟩
+      · intro j hj
+        rw [getD_set_nil _ _ _ _ hil]
+        by_cases hji : j = i
+        · simp [hji]
+        · simp only [hji, if_false]; exact hb j hj
+      · simp only [List.reverse_cons, ho]
+        rw [← hbi]
+    · simp only [h1, if_false, h2]
+      refine ⟨by simp [hl], ?_, ho⟩
+      intro j hj
+      rw [getD_set_nil _ _ _ _ hil]
+      by_cases hji : j = i
+      · subst hji; simp only [if_true, List.reverse_cons]; rw [← hbi]
+      · simp only [hji, if_false]; exact hb j hj
+
+theorem multiChunkF_rel (n : Nat) (c : Nat × Bytes) (hc : c.1 < n) (f : MSF) (s : MultiState) (h : relM n f s) :
+    relM n (multiChunkF f c) (multiChunk s c) := by
+  obtain ⟨i, bs⟩ := c
+  unfold multiChunkF multiChunk
+  simp only at hc ⊢
+  induction bs generalizing f s with
+  | nil => exact h
+  | cons b rest ih => exact ih _ _ (multiByteF_rel n i hc f s b h)
+
+/-- the driver's linear-time multi-connection client is the model's -/
+theorem multiRunF_eq (n : Nat) (sched : List (Nat × Bytes)) (h : ∀ c ∈ sched, c.1 < n) :
+    multiRunF n sched = (multiRun sched).out := by
+  have gen : ∀ (sched : List (Nat × Bytes)) (f : MSF) (s : MultiState), (∀ c ∈ sched, c.1 < n) → relM n f s →
+      relM n (sched.foldl multiChunkF f) (sched.foldl multiChunk s) := by
+    intro sched
+    induction sched with
+    | nil => intro f s _ h; exact h
+    | cons c rest ih =>
+      intro f s hc h
+      exact ih _ _ (fun d hd => hc d (List.mem_cons_of_mem _ hd))
+        (multiChunkF_rel n c (hc c (by simp)) f s h)
+  have h0 : relM n ⟨List.replicate n [], []⟩ multiInit := by
+    refine ⟨by simp, ?_, rfl⟩
+    intro j hj
+    simp [multiInit, hj]
+  exact (gen sched _ _ h h0).2.2
+
+end Dtail
